@@ -12,7 +12,11 @@ DEFAULT_TIMEOUT_MS = int(os.environ.get("VERIF_Z3_TIMEOUT_MS", "20000"))
 
 
 def build(c: Contract) -> Engine:
+    from . import names
+    _mi, _fn = source.function(c.key)
+    c, renamed = names.adapt(c, _fn)       # pure renaming of locals: use the invariants under the new names
     E = Engine(c)
+    E.renamed_locals = renamed
     fn = E.fn
     st = State()
     params = [a.arg for a in fn.args.args]
